@@ -832,9 +832,17 @@ pub fn run_streams(tier: &str, seed: u64, mut emit: impl FnMut(&str, &Cfg, &str)
     }
 }
 
+/// Stream tag plus whether the sanitizer changed the parsed tree (evidence distribution).
+pub fn tag_of(tag: &str, case: &Sx, out: &Sx) -> String {
+    let input = case.as_list().and_then(|l| l.get(2));
+    let cleaned = out.as_list().and_then(|l| l.get(1)).and_then(|x| x.as_list()).and_then(|l| l.first());
+    format!("{tag}:{}", if input == cleaned { "unchanged" } else { "changed" })
+}
+
 pub fn run(tier: &str, seed: u64, em: &mut Emitter) {
     run_streams(tier, seed, |tag, c, d| {
         let c = c.clone().normalise();
-        em.emit(tag, case_sx(&c, d), run_case(&c, d));
+        let (case, out) = (case_sx(&c, d), run_case(&c, d));
+        em.emit(&tag_of(tag, &case, &out), case, out);
     });
 }
